@@ -445,9 +445,13 @@ def select(table: Table, *cols: Col | ColName | str) -> Pipeable:
             )
 
     cols = [ColName(col) if isinstance(col, str) else col for col in cols]
+    selected = [preprocess_arg(col, table) for col in cols]
+    uuids = [col._uuid for col in selected]
+    if (dup := next((col for col in selected if uuids.count(col._uuid) > 1), None)) is not None:
+        raise ValueError(f"column `{dup.ast_repr()}` is selected more than once")
 
     new = copy.copy(table)
-    new._ast = Select(table._ast, [preprocess_arg(col, table) for col in cols])
+    new._ast = Select(table._ast, selected)
 
     return new
 
